@@ -8,7 +8,9 @@ parsed with html.parser and for every element the set of data-djc-id-* attribute
 (an element is a root of I when no other element lies between it and I's output boundary -
 so roots contributed by fills rendered at root level and by child components that are
 themselves roots carry the ids of all enclosing instances).  Ids are distinct and equal the
-echoed Component.id.  Thorough adds the depth families chain(d) / nest(d) up to d = 2000.
+echoed Component.id.  The structured roots family is additionally rendered with an unrelated
+Python-API render (succeeding / failing at three points, error caught) inside every component's
+on_render_before / on_render_after hook: ids and output must not change.  Thorough adds the depth families chain(d) / nest(d) up to d = 2000.
 """
 from __future__ import annotations
 
@@ -282,6 +284,52 @@ def roots_programs():
                     yield Program(label(page, "P"), comps, {})
 
 
+# Side renders: while the page render is in flight, every component of the family performs - from its
+# on_render_before hook (during its own render) or its on_render_after hook (inside the deferred queue) - an
+# independent Python-API render of an unrelated component and discards the result; the unrelated render succeeds,
+# fails in get_context_data, fails in its on_render_after, or fails in a nested child (the application catches the
+# error).  The page's ids must be exactly what they are without the side renders.
+SIDE_KINDS = ("ok", "fail", "fail_late", "fail_child")
+SIDE_POS = ("before", "after")
+_SIDE = {}
+
+
+def _side_classes():
+    if _SIDE:
+        return _SIDE
+    from django_components import Component
+    from django_components.component_registry import registry
+
+    def boom(self, *a, **kw):
+        raise ValueError("side render fails")
+
+    tpl = "<i>s</i>{% component 'c14sidechild' / %}<i>t</i>"
+    for name, okcls in (("c14sidechild", True), ("c14sidechild_bad", False)):
+        if name in registry.all():
+            registry.unregister(name)
+        attrs = {"template": "<u>child</u>", "__module__": "verif_c14"}
+        if not okcls:
+            attrs["get_context_data"] = boom
+        registry.register(name, type("C14Side_" + name, (Component,), attrs))
+    _SIDE["ok"] = type("C14SideOk", (Component,), {"template": tpl, "__module__": "verif_c14"})
+    _SIDE["fail"] = type("C14SideFail", (Component,), {"template": tpl, "get_context_data": boom, "__module__": "verif_c14"})
+    _SIDE["fail_late"] = type("C14SideFailLate", (Component,), {"template": tpl, "on_render_after": boom, "__module__": "verif_c14"})
+    _SIDE["fail_child"] = type("C14SideFailChild", (Component,), {"template": tpl.replace("c14sidechild", "c14sidechild_bad"), "__module__": "verif_c14"})
+    return _SIDE
+
+
+def side_attrs(prog, pos, kind):
+    cls = _side_classes()[kind]
+
+    def side(self, *a, **kw):
+        try:
+            cls.render(render_dependencies=False)
+        except ValueError:
+            pass
+
+    return {name: {"on_render_" + pos: side} for name in prog.comps}
+
+
 def roots_worker(w, W, payload):
     (mode,) = payload
     boot.set_components_setting(context_behavior=mode)
@@ -308,6 +356,26 @@ def roots_worker(w, W, payload):
             agg.fail(f"{mode}:roots-family:{bad[0]}:{core_of(prog)}", f"[{mode}] {bad[1]}", {"mode": mode, "program": prog.to_json(mode), "spec": prog_spec(prog)})
         else:
             second_pass(prog, mode, h, agg, "roots-family:")
+            base = re.sub(r"a[0-9a-f]{5}", "ID", obs[1])
+            for pos in SIDE_POS:
+                for kind in SIDE_KINDS:
+                    boot.ID_SEAM.reset(agg.states * 64 % 0x40000)
+                    h.install(prog, extra_attrs=side_attrs(prog, pos, kind))
+                    obs2 = h.render_page(prog)
+                    boot.clear_render_registries()
+                    agg.transitions += 1
+                    agg.expected["side:%s:%s" % (pos, kind)] += 1
+                    if obs2[0] != "ok":
+                        bad2 = ("error", f"render failed with {obs2}")
+                    else:
+                        bad2 = check_one(prog, mode, obs2[1])
+                        if not bad2 and re.sub(r"a[0-9a-f]{5}", "ID", obs2[1]) != base:
+                            bad2 = ("side-output", f"output differs from the render without side renders: {obs2[1][:300]!r} vs {obs[1][:300]!r}")
+                    agg.validated += 1
+                    if bad2:
+                        agg.fail(f"{mode}:roots-family:side-{pos}-{kind}:{bad2[0]}:{core_of(prog)}",
+                                 f"[{mode}, unrelated {kind} render inside every on_render_{pos}] {bad2[1]}",
+                                 {"mode": mode, "program": prog.to_json(mode), "spec": prog_spec(prog), "side": [pos, kind]})
         if agg.states == 12 and w == 3:
             agg.sample({"mode": mode, "page": prog.page_source(), "components": {n: c.source() for n, c in prog.comps.items()}, "html": obs[1][:400]})
     h.uninstall()
@@ -329,6 +397,9 @@ def depth_task(arg):
     kind, d = arg
     boot.set_components_setting(context_behavior="django")
     boot.ID_SEAM.reset()
+    only = ""
+    if kind.endswith("_only"):  # the child is called with the `only` flag (isolated context copy)
+        kind, only = kind[:-5], " only"
 
     def gcd(self, depth=0):
         return {"my_id": self.id, "depth": int(depth), "next": int(depth) - 1, "one": [1]}
@@ -349,6 +420,8 @@ def depth_task(arg):
         tpl = "[r:{{ my_id }}]<div data-n=\"d{{ depth }}\">{% if depth > 0 %}{% for i in one %}{% component 'c14rec' depth=next / %}{% endfor %}{% endif %}</div>"
     else:
         tpl = "[r:{{ my_id }}]<div data-n=\"d{{ depth }}\">{% if depth > 0 %}{% component 'c14rec' depth=next / %}{% endif %}</div>"
+    tpl = tpl.replace(" depth=next / %}", " depth=next" + only + " / %}")
+    kind = arg[0]
     cls = type("C14Rec", (Component,), {"template": tpl, "get_context_data": gcd, "__module__": "verif_c14"})
     if "c14rec" in registry.all():
         registry.unregister("c14rec")
@@ -367,6 +440,7 @@ def depth_task(arg):
     ids = rp.echo_ids
     if len(ids) != d + 1 or len(set(ids)) != d + 1:
         return kind, d, f"expected {d + 1} distinct instance ids, got {len(ids)} ({len(set(ids))} distinct)"
+    kind = kind[:-5] if kind.endswith("_only") else kind
     if kind == "chain":
         if len(rp.elems) != 1 or rp.elems[0][1] != frozenset(ids):
             return kind, d, f"leaf element should carry all {d + 1} ids, carries {len(rp.elems[0][1]) if rp.elems else 'no element'}"
@@ -400,6 +474,7 @@ def run(ctx):
     depths = [1, 2, 3, 5, 10, 50, 200] + ([1000, 2000] if ctx.tier == "thorough" else [])
     tasks = [(k, d) for k in ("chain", "nest") for d in depths]
     tasks += [("loopnest", d) for d in ([1, 2, 3, 10, 100, 600] + ([1000, 2000] if ctx.tier == "thorough" else []))]
+    tasks += [(k, d) for k in ("loopnest_only", "nest_only", "chain_only") for d in ([2, 10, 100, 600] + ([2000] if ctx.tier == "thorough" else []))]
     tasks += [("reentrant", d) for d in (1, 2, 3, 5)]
     import sys
     sys.setrecursionlimit(max(sys.getrecursionlimit(), 1000))
@@ -423,10 +498,12 @@ def replay(ctx, case):
     boot.set_components_setting(context_behavior=mode)
     prog = prog_from_spec(case["spec"], lambda n, t: CompSpec(n, t, {"my_id": ("id",)} if case.get("echo", True) else {}, ()))
     h = Harness()
-    h.install(prog)
+    h.install(prog, extra_attrs=side_attrs(prog, *case["side"]) if case.get("side") else None)
     obs = h.render_page(prog)
     boot.clear_render_registries()
     h.uninstall()
+    if case.get("side"):
+        print("side:     unrelated %s render inside every on_render_%s hook" % (case["side"][1], case["side"][0]))
     print("page:    ", prog.page_source())
     for n, c in prog.comps.items():
         print(f"comp {n}:  ", c.source())
